@@ -49,6 +49,11 @@ pub struct Profile {
     pub post_balance_noise: u64,
     pub max_ops_scale: u64,
     pub corrections: u64,
+    pub alt_datums: u64,
+    /// wallets holding more than 2^32 lovelace (change coins that need the widest encoding)
+    pub whale: u64,
+    /// outputs whose datum length is swept so that min-ADA lands on a coin-width boundary
+    pub boundary_outputs: u64,
 }
 
 impl Profile {
@@ -86,6 +91,9 @@ impl Profile {
             post_balance_noise: 50,
             max_ops_scale: 1,
             corrections: 120,
+            alt_datums: 300,
+            whale: 60,
+            boundary_outputs: 0,
         }
     }
 }
@@ -209,6 +217,14 @@ impl<'p> Gen<'p> {
             let d = self.w.datums[0].clone();
             self.w.datums.push(d);
         }
+        if pm(&mut self.r, self.p.alt_datums) {
+            // the same value as another peer encoded it (arrives through from_bytes): equal value, other bytes
+            let i = self.r.usize_below(self.w.datums.len());
+            let d = self.w.datums[i].clone();
+            if !matches!(d, Pd::Alt(..)) {
+                self.w.datums.push(Pd::Alt(Box::new(d), self.r.below(250) as u8));
+            }
+        }
     }
 
     pub fn new_utxo(&mut self, addr: AddrSpec, coin: u64, assets: Vec<AssetQ>, datum: Option<DatumAt>, script_ref: Option<ScriptId>) -> usize {
@@ -264,12 +280,24 @@ impl<'p> Gen<'p> {
         if let ScriptSpec::Native(ns) = &self.w.scripts[s as usize] {
             ns.keys(&mut keys);
         }
-        // truthful declaration: a script used by reference declares all its keys as signers
+        // truthful declaration: a script used by reference declares the keys that will sign (all of
+        // them, or - one time in four - a non-empty subset as a wallet would for any/n-of-k scripts);
+        // the keys a history declares are the native-script signers the oracle signs with
+        let subset = self.r.chance(1, 4) && keys.len() > 1;
+        let chosen = if subset {
+            let mut k2: Vec<KeyId> = keys.iter().cloned().filter(|_| self.r.chance(1, 2)).collect();
+            if k2.is_empty() {
+                k2.push(keys[self.r.usize_below(keys.len())]);
+            }
+            k2
+        } else {
+            keys
+        };
         let signers = match how {
-            ScriptUse::Ref(_) => Some(keys),
+            ScriptUse::Ref(_) => Some(chosen),
             ScriptUse::Witness => {
-                if self.r.chance(1, 4) {
-                    Some(keys)
+                if subset || self.r.chance(1, 4) {
+                    Some(chosen)
                 } else {
                     None
                 }
@@ -407,6 +435,8 @@ impl<'p> Gen<'p> {
 #[derive(Default, Debug)]
 pub struct Plan {
     pub pre: Vec<Op>,
+    /// operations that must come after everything in `pre` (replacements of earlier entries)
+    pub pre_tail: Vec<Op>,
     pub uses_plutus: bool,
     pub langs: u8,
     pub need: u128,
@@ -472,7 +502,7 @@ pub fn generate(seed: u64, tier: Tier, p: &Profile) -> Scenario {
                 };
                 let kaddr = loop {
                     let a = g.key_addr();
-                    if !matches!(a, AddrSpec::Byron(_)) {
+                    if !matches!(a, AddrSpec::Byron(_) | AddrSpec::ByronPath(..)) {
                         break a;
                     }
                 };
@@ -505,7 +535,16 @@ pub fn generate(seed: u64, tier: Tier, p: &Profile) -> Scenario {
             }
         }
         let feat = pm(&mut g.r, p.out_features);
-        let datum = if feat && g.r.chance(1, 2) {
+        let boundary = pm(&mut g.r, p.boundary_outputs);
+        let datum = if boundary {
+            // sweep the output size across the point where cpb x (160 + size) crosses a CBOR width edge
+            let edge = *g.r.pick(&[256u64, 65536, 65536]);
+            let target_size = (edge / g.k.cpb.max(1)).saturating_sub(160);
+            let len = (target_size.saturating_add(g.r.below(90))).saturating_sub(130).min(4000) as u16;
+            g.w.datums.push(Pd::Bytes(len, g.r.below(200) as u8));
+            let d = (g.w.datums.len() - 1) as u16;
+            Some(DatumAt::Inline(d))
+        } else if feat && g.r.chance(1, 2) {
             let d = g.r.below(g.w.datums.len() as u64) as u16;
             Some(if g.r.chance(1, 2) { DatumAt::Hash(d) } else { DatumAt::Inline(d) })
         } else {
@@ -513,7 +552,7 @@ pub fn generate(seed: u64, tier: Tier, p: &Profile) -> Scenario {
         };
         let script_ref = if feat && g.r.chance(1, 3) { Some(g.r.below(g.w.scripts.len() as u64) as u16) } else { None };
         let extra = 60 * assets.len() as u64 + if datum.is_some() { 150 } else { 0 } + if script_ref.is_some() { 3100 } else { 0 };
-        let min_coin = g.r.chance(1, 4);
+        let min_coin = g.r.chance(1, 4) || (boundary && g.r.chance(2, 3));
         let coin = if min_coin { 0 } else { g.min_ada(extra) + if g.r.chance(1, 2) { g.amount() % 100_000_000 } else { 0 } };
         let addr = if g.r.chance(1, 8) { AddrSpec::Ent(Cred::Script(*g.r.pick(&g.plutus_ids.clone()))) } else { g.key_addr() };
         plan.need += if min_coin { g.min_ada(extra) as u128 } else { coin as u128 };
@@ -549,10 +588,17 @@ pub fn generate(seed: u64, tier: Tier, p: &Profile) -> Scenario {
         for _ in 0..n {
             let sp = p.script_certs;
             let c = g.any_cred(sp, true);
+            let amt = g.amount() % 100_000_000;
             if !seen.insert(c.clone()) {
+                // the same key account registered again replaces the earlier amount; script accounts are not repeated
+                if let Cred::Key(_) = &c {
+                    if g.r.chance(1, 2) {
+                        plan.pre_tail.push(Op::Wdr(c, amt, None));
+                        plan.have += amt as u128;
+                    }
+                }
                 continue;
             }
-            let amt = g.amount() % 100_000_000;
             let wit = match &c {
                 Cred::Script(s) => {
                     let w = g.wit_for(*s);
@@ -819,6 +865,7 @@ pub fn generate(seed: u64, tier: Tier, p: &Profile) -> Scenario {
         } else {
             base + (need as u64 / (1 + g.r.below(n_off as u64))) + g.amount() % 200_000_000
         };
+        let coin = if i == 0 && pm(&mut g.r, p.whale) { coin.saturating_add((1u64 << 32) + g.r.below(1 << 34)) } else { coin };
         let addr = g.key_addr();
         let sref = if g.r.chance(1, 25) { Some(g.r.below(g.w.scripts.len() as u64) as u16) } else { None };
         let coin = coin + if sref.is_some() { g.min_ada(3200) } else { 0 };
@@ -837,6 +884,7 @@ pub fn generate(seed: u64, tier: Tier, p: &Profile) -> Scenario {
     let mut pre = std::mem::take(&mut plan.pre);
     // inputs first half of the time, otherwise anywhere
     g.r.shuffle(&mut pre);
+    pre.extend(std::mem::take(&mut plan.pre_tail));
     if plan.uses_plutus && g.r.chance(4, 5) {
         // the script data hash must be in the body before the fee is computed
         pre.push(Op::PresetScriptDataHash);
@@ -928,6 +976,25 @@ pub fn byron_by_addr(addr: &[u8], magic: u32) -> Option<KeyId> {
     (0..64u16).find(|i| byron(*i, magic).addr_bytes == addr)
 }
 
+/// key material (and the address value) owning a Byron address of either kind
+pub fn byron_mat_by_addr(addr: &[u8], magic: u32) -> Option<std::rc::Rc<ByronMat>> {
+    for i in 0..64u16 {
+        let b = byron(i, magic);
+        if b.addr_bytes == addr {
+            return Some(b);
+        }
+    }
+    for l in [28u8, 40] {
+        for i in 0..16u16 {
+            let b = byron_with_path(i, magic, l);
+            if b.addr_bytes == addr {
+                return Some(b);
+            }
+        }
+    }
+    None
+}
+
 /// Keys the history declared on script sources, restricted to scripts the transaction requires.
 pub fn declared_keys(sc: &Scenario, h: &History, upto_op: usize, required_scripts: &BTreeSet<Vec<u8>>) -> BTreeSet<Vec<u8>> {
     let mut out = BTreeSet::new();
@@ -956,15 +1023,33 @@ pub fn declared_keys(sc: &Scenario, h: &History, upto_op: usize, required_script
         }
     };
     let mut extra: Vec<Vec<u8>> = vec![];
+    let mut seen_mint: BTreeSet<ScriptId> = BTreeSet::new();
+    let mut seen_voter: BTreeSet<String> = BTreeSet::new();
     for (i, op) in sc.ops.iter().enumerate() {
-        if i >= upto_op || !h.results.get(i).map_or(false, |r| r.is_ok()) {
+        if i >= upto_op {
+            continue;
+        }
+        // mint-and-output is two steps inside the library: when the output half is refused the
+        // mint half has already been applied (F4); the script counts whenever the transaction requires it
+        let half_applied = matches!(op, Op::MintAndOut { .. }) && matches!(h.results.get(i), Some(crate::exec::Res::Err(_)));
+        if !half_applied && !h.results.get(i).map_or(false, |r| r.is_ok()) {
             continue;
         }
         match op {
             Op::InScript { wit, .. } => visit(wit),
             Op::Cert(_, Some(w)) | Op::Wdr(_, _, Some(w)) | Op::Propose(_, Some(w)) => visit(w),
-            Op::Mint { wit, .. } => visit(wit),
-            Op::Vote { wit: Some(w), .. } => visit(w),
+            // the mint builder keeps one script source per policy and the voting builder one per
+            // voter: the source of the first successful call is the one that counts
+            Op::Mint { wit, .. } => {
+                if seen_mint.insert(wit.script) {
+                    visit(wit)
+                }
+            }
+            Op::Vote { wit: Some(w), voter, .. } => {
+                if seen_voter.insert(format!("{:?}", voter)) {
+                    visit(w)
+                }
+            }
             // a key declared on the inputs builder is a promise that it will sign
             Op::InReqSigner(k) => extra.push(key(*k).hash_bytes.to_vec()),
             Op::MintAndOut { script, .. } => visit(&Wit { script: *script, how: ScriptUse::Witness, datum: DatumUse::None, red: 0, mem: 0, steps: 0, signers: None }),
@@ -1020,11 +1105,11 @@ pub fn sign(sc: &Scenario, h: &History, b: &BuiltObs) -> Result<Signed, String> 
         }
         ws.set_vkeys(&vk);
     }
-    if !req.byron.is_empty() {
+    {
+        // like a signing helper that always hands both collections over, also when one is empty
         let mut bw = csl::BootstrapWitnesses::new();
         for a in &req.byron {
-            let id = byron_by_addr(a, sc.world.magic).ok_or("byron owner unknown")?;
-            let bm = byron(id, sc.world.magic);
+            let bm = byron_mat_by_addr(a, sc.world.magic).ok_or("byron owner unknown")?;
             bw.add(&csl::make_icarus_bootstrap_witness(&th, &bm.addr, &bm.xprv));
         }
         ws.set_bootstraps(&bw);
